@@ -1020,6 +1020,9 @@ mod srvlevel {
     //!   k = floor((t_ms + 400) / 1000) of the resolution time measured from the stop call.
     //! `sig <name> sig=int|term|quit timeout=S hold=<ms|n>`
     //!   a child process running the server with OS signals enabled; observation `exit=<k>`.
+    //! Every `srv` / `gate` / `fault` scenario hosts its Server in a process of its own (hidden sub-command `scnchild <line>`,
+    //! result line read from a pipe, wall-clock cap): the death of the whole process (abort by a panic while unwinding, SIGSEGV, …)
+    //! is the observation `aborted` + a T3 failure (`fault`: C08, C01), a hang is `hung`; the model predicts the normal outcome.
     use std::{
         io::{Read, Write},
         sync::{
